@@ -1,7 +1,9 @@
-(* C15 model: one user's entry of UserTrackingManager (user/manager.py): flags, state, request queue,
-   the worker coroutine _tracking_task cut at its awaits, the retry task, the registry entry and the
-   done-callback that removes it.  Definitions only; executable.
-   Retry delays come from SlskGen.RetryGen (regenerated from user/manager.py). *)
+(* C15 model (REPAIRED code: F18, F18b fixed): one user's entry of UserTrackingManager (user/manager.py): flags,
+   state, request queue, the worker coroutine _tracking_task cut at its awaits, the retry task, the registry entry.
+   Repairs reflected here: the worker removes its own registry entry synchronously when it returns, stop() drops the
+   entries of the workers it cancels, the done-callback only removes an entry that is still its own (so it never
+   removes anything in the behaviours modelled here), and the retry task is cancelled without being awaited.
+   Definitions only; executable.  Retry delays come from SlskGen.RetryGen (regenerated from user/manager.py). *)
 From Coq Require Import ZArith List Bool Arith.
 From SlskGen Require Import RetryGen.
 From Slsk Require Import C15.Spec.
@@ -12,46 +14,44 @@ Inductive req := RAdd (f : nat) | RRem (f : nat).         (* TrackingRequest(add
 Inductive tst := Untracked | Tracked | RetryPending.
 Inductive pc :=
   | PIdle                     (* at `await queue.get()` *)
-  | PCancelRetry (prev : nat) (* flags became 0: inside `await cancel_task(retry_task)` waiting for the cancelled retry task *)
   | PSendRemove               (* awaiting send_server_messages(RemoveUser) *)
   | PSendAdd                  (* awaiting send_server_messages(AddUser) *)
   | PWaitReply                (* awaiting wait_for_server_message(AddUser.Response) *)
-  | PDying                    (* Task.cancel() requested, CancelledError not yet delivered *)
-  | PDone                     (* task finished; done-callback scheduled; registry entry still there *)
-  | PGone.                    (* no registry entry *)
+  | PGone.                    (* no registry entry (the worker returned or was cancelled by stop()) *)
 
 Record user := mkU {
   present : bool; flags : nat; st : tst; queue : list req; wpc : pc; armed : option Z;
-  (* ghost *) deq : list (nat * nat * bool); att : list skind
+  (* ghost *) deq : list (nat * nat * bool); att : list skind;
+  conf : bool     (* ghost: the last finished AddUser attempt for the current non-empty set was answered "exists" *)
 }.
 
 Inductive out := OFrame (k : skind) | OState (s : tst) | OArm (d : Z).
 
-Definition absent (dq : list (nat * nat * bool)) (at_ : list skind) : user := mkU false 0 Untracked [] PGone None dq at_.
+Definition absent (dq : list (nat * nat * bool)) (at_ : list skind) : user := mkU false 0 Untracked [] PGone None dq at_ false.
 Definition init : user := absent [] [].
 
 Definition apply_req (r : req) (fl : nat) : nat := match r with RAdd f => Nat.lor fl f | RRem f => Nat.ldiff fl f end.
 Definition req_flag (r : req) : nat := match r with RAdd f => f | RRem f => f end.
 
-Definition set_pc (u : user) (p : pc) : user := mkU (present u) (flags u) (st u) (queue u) p (armed u) (deq u) (att u).
+Definition set_pc (u : user) (p : pc) : user := mkU (present u) (flags u) (st u) (queue u) p (armed u) (deq u) (att u) (conf u).
 
-(* `if tracked_user.queue.empty(): return` else next loop round *)
-Definition exit_check (u : user) : user := set_pc u (match queue u with [] => PDone | _ => PIdle end).
+(* `if tracked_user.queue.empty(): del self._tracked_users[name]; return` else next loop round *)
+Definition exit_check (u : user) : user := match queue u with [] => absent (deq u) (att u) | _ => set_pc u PIdle end.
 
-(* after `await cancel_task(retry_task)` in the flags = 0 branch *)
+(* flags = 0 branch after the retry task has been cancelled (not awaited) *)
 Definition after_cancel (u : user) (prev : nat) : user :=
   if Nat.eqb prev 0 then exit_check u
-  else mkU (present u) (flags u) (st u) (queue u) PSendRemove (armed u) (deq u) (att u ++ [SRem]).
+  else mkU (present u) (flags u) (st u) (queue u) PSendRemove (armed u) (deq u) (att u ++ [SRem]) (conf u).
 
 (* _request_untracking returned (sent or failed): _set_tracking_state(UNTRACKED), then the exit check *)
 Definition finish_remove (u : user) : user * list out :=
-  (exit_check (mkU (present u) (flags u) Untracked (queue u) (wpc u) (armed u) (deq u) (att u)), [OState Untracked]).
+  (exit_check (mkU (present u) (flags u) Untracked (queue u) (wpc u) (armed u) (deq u) (att u) false), [OState Untracked]).
 
 (* _request_tracking returned [a]: _set_tracking_state(TRACKED | RETRY_PENDING) *)
 Definition attempt_end (u : user) (a : attempt) : user * list out :=
   match retry_delay a with
-  | None => (mkU (present u) (flags u) Tracked (queue u) PIdle (armed u) (deq u) (att u), [OState Tracked])
-  | Some d => (mkU (present u) (flags u) RetryPending (queue u) PIdle (Some d) (deq u) (att u), [OArm d; OState RetryPending])
+  | None => (mkU (present u) (flags u) Tracked (queue u) PIdle (armed u) (deq u) (att u) true, [OState Tracked])
+  | Some d => (mkU (present u) (flags u) RetryPending (queue u) PIdle (Some d) (deq u) (att u) false, [OArm d; OState RetryPending])
   end.
 
 Definition dequeue (u : user) : user :=
@@ -61,33 +61,27 @@ Definition dequeue (u : user) : user :=
       let prev := flags u in
       let new := apply_req r prev in
       let retry := Nat.eqb (req_flag r) 0 in
-      let u1 := mkU (present u) new (st u) q (wpc u) (armed u) (deq u ++ [(prev, new, retry)]) (att u) in
       if Nat.eqb new 0 then
-        match armed u1 with
-        | Some _ => mkU (present u1) (flags u1) (st u1) (queue u1) (PCancelRetry prev) None (deq u1) (att u1)
-        | None => after_cancel u1 prev
-        end
+        after_cancel (mkU (present u) new (st u) q (wpc u) None (deq u ++ [(prev, new, retry)]) (att u) (conf u)) prev
       else if Nat.eqb prev 0 || retry then
-        mkU (present u1) (flags u1) (st u1) (queue u1) PSendAdd (armed u1) (deq u1) (att u1 ++ [SAdd])
-      else u1
+        mkU (present u) new (st u) q PSendAdd (armed u) (deq u ++ [(prev, new, retry)]) (att u ++ [SAdd]) (conf u)
+      else mkU (present u) new (st u) q (wpc u) (armed u) (deq u ++ [(prev, new, retry)]) (att u) (conf u)
   end.
 
 Definition enqueue (u : user) (r : req) : user :=
-  mkU (present u) (flags u) (st u) (queue u ++ [r]) (wpc u) (armed u) (deq u) (att u).
+  mkU (present u) (flags u) (st u) (queue u ++ [r]) (wpc u) (armed u) (deq u) (att u) (conf u).
 
 Definition step (u : user) (ev : event) : user * list out :=
   match ev with
   | Track f =>
-      if present u then (enqueue u (RAdd f), [])          (* also when the worker is dead: the request is never read *)
-      else (mkU true 0 Untracked [RAdd f] PIdle None (deq u) (att u), [])
+      if present u then (enqueue u (RAdd f), [])
+      else (mkU true 0 Untracked [RAdd f] PIdle None (deq u) (att u) false, [])
   | Untrack f => if present u then (enqueue u (RRem f), []) else (u, [])
   | WorkerStep =>
       match wpc u with
       | PIdle => (dequeue u, [])
-      | PCancelRetry prev => (after_cancel u prev, [])
       | PSendRemove => let '(u', o) := finish_remove u in (u', OFrame SRem :: o)
       | PSendAdd => (set_pc u PWaitReply, [OFrame SAdd])
-      | PDying => (set_pc u PDone, [])
       | _ => (u, [])
       end
   | SendFails =>
@@ -103,16 +97,11 @@ Definition step (u : user) (ev : event) : user * list out :=
       end
   | TimerFires =>
       match armed u with
-      | Some _ => (mkU (present u) (flags u) (st u) (queue u ++ [RAdd 0]) (wpc u) None (deq u) (att u), [])
+      | Some _ => (mkU (present u) (flags u) (st u) (queue u ++ [RAdd 0]) (wpc u) None (deq u) (att u) (conf u), [])
       | None => (u, [])
       end
-  | DoneCb => match wpc u with PDone => (absent (deq u) (att u), []) | _ => (u, []) end
-  | ServerClosed =>
-      let u1 := mkU (present u) (flags u) (st u) (queue u) (wpc u) None (deq u) (att u) in
-      match wpc u with
-      | PIdle | PSendRemove | PSendAdd | PWaitReply => (set_pc u1 PDying, [])
-      | _ => (u1, [])          (* PCancelRetry: the CancelledError is swallowed by cancel_task's `except CancelledError: pass` *)
-      end
+  | DoneCb => (u, [])          (* the done-callback finds that the entry is no longer its own *)
+  | ServerClosed => (absent (deq u) (att u), [])      (* stop(): cancel worker and retry task, drop the entry *)
   end.
 
 Fixpoint run_from (u : user) (es : list event) : user :=
@@ -122,9 +111,12 @@ Definition run (es : list event) : user := run_from init es.
 Fixpoint outs_from (u : user) (es : list event) : list out :=
   match es with [] => [] | ev :: r => snd (step u ev) ++ outs_from (fst (step u ev)) r end.
 
+(* the reasons the entry stands for: its flags with the queued requests applied *)
+Definition reasons (u : user) : nat := fold_left (fun fl r => apply_req r fl) (queue u) (flags u).
+
 (* ---------- observations compared with the implementation ---------- *)
 Definition st_code (s : tst) : nat := match s with Untracked => 0 | Tracked => 1 | RetryPending => 2 end.
-Definition alive (u : user) : bool := match wpc u with PDone | PGone => false | _ => true end.
+Definition alive (u : user) : bool := match wpc u with PGone => false | _ => true end.
 Definition snap (u : user) : bool * nat * nat * nat * bool * bool :=
   (present u, flags u, st_code (st u), length (queue u), alive u, match armed u with Some _ => true | None => false end).
 Fixpoint snaps_from (u : user) (es : list event) : list (bool * nat * nat * nat * bool * bool) :=
